@@ -590,7 +590,7 @@ def main(ctx, replay):
     rng = random.Random(ctx.seed)
     info = C.prologue(ctx)
     if info["hbin"] is None:
-        raise RuntimeError("harness build failed:\n" + info.get("go_log", ""))
+        raise C.HarnessBuildFailed(info.get("go_log", ""))
     cov = C.proof_coverage(info, "C16")
     assumptions = [
         "url.Parse/URL.Hostname/URL.Parse(Location) and netip.ParseAddr results are taken from Go and handed to the model (library = trusted base); the harness normalises the host itself only to ask ParseAddr, the hosts the real code asks the resolver for are compared with the model's",
